@@ -248,6 +248,11 @@ func (d *decompressor) nextBlockAt(off int64, rs io.ReadSeeker) *decompressor {
 	d.blk.setBase(d.cr.offset())
 	d.err = d.readMember()
 	if d.err != nil {
+		// Do not leave the data and header of the member the
+		// block held before in a block that was not filled.
+		base := d.blk.Base()
+		d.blk.setOwner(d.owner)
+		d.blk.setBase(base)
 		d.wg.Done()
 		return d
 	}
